@@ -34,6 +34,12 @@ CORPUS = [
 ]
 
 
+def sympy_rebuild_error(cls, msg):
+    """exceptions SymPy raises while expr.func(*new_args) re-evaluates a rebuilt node"""
+    return (cls == 'RecursionError' or (cls == 'TypeError' and 'Invalid NaN comparison' in msg) or
+            (cls == 'ValueError' and 'is not comparable' in msg))
+
+
 def tjson(n):
     return None if n is None else sorted([k, '%d/%d' % (F(v).numerator, F(v).denominator)] for k, v in n.items())
 
@@ -101,7 +107,7 @@ def value_findings(eff, out, scale, seed):
             continue
         s = uc.try_eval(uc.eval_si, eff, vals, dv)
         n = uc.try_eval(uc.eval_n, out, vals, dv)
-        pts.append(n)
+        pts.append(n if s is not None else 'skip')
         if res or s is None:
             continue        # where the input has no real value there is nothing to preserve (SymPy may even extend
             #                 the domain when it re-evaluates: (x**0.5)**2 -> x)
@@ -227,8 +233,8 @@ def compare(r, mod, seed):
     if tag == 3:
         return 'unsupported'
     if tag == 0:
-        if impl[0] == 'err' and impl[1] == 'RecursionError':
-            return 'unsupported'     # SymPy's re-evaluation of the rebuilt Piecewise diverges (known finding)
+        if impl[0] == 'err' and sympy_rebuild_error(impl[1], impl[2]):
+            return 'unsupported'     # SymPy's re-evaluation of the rebuilt node fails (known finding)
         if impl[0] != 'ok':
             return 'model: converts, implementation raised %s' % impl[1]
         if bool(mod[2]) != impl[1]:
@@ -262,6 +268,9 @@ def compare(r, mod, seed):
 def evaluate(ctx, cases, results, use_model=True):
     live = [(c, r) for c, r in zip(cases, results) if 'skip' not in r]
     for c, r in zip(cases, results):
+        if 'skip' in r:
+            k = 'skipped:' + r['skip'].split(':')[0].split('(')[0][:24]
+            ctx.hist[k] = ctx.hist.get(k, 0) + 1
         if 'skip' in r and r['skip'].startswith('harness'):
             ctx.tie_break('harness failure: ' + r['skip'], c)
     mods = None
@@ -280,7 +289,8 @@ def evaluate(ctx, cases, results, use_model=True):
         for what, text in r['findings']:
             ctx.violation('C05 %s: %s' % (what, text),
                           {'tree': r['eff'], 'target': c['target'], 'name': c.get('name'), 'kind': c['kind'],
-                           'impl': impl, 'out': r.get('out'), 'detail': {'kind': what, 'err': r.get('strict_err') or (impl[1] if impl[0] == 'err' else None)}})
+                           'impl': impl, 'out': r.get('out'), 'detail': {'kind': what, 'err': r.get('strict_err') or (impl[1] if impl[0] == 'err' else None),
+                                      'msg': impl[2] if impl[0] == 'err' else None}})
         if mods is not None:
             ctx.corr_cases += 1
             m = mods[i]
@@ -367,9 +377,11 @@ def result_magnitude_exception(case):
 
 
 def piecewise_rebuild_recursion(case):
-    """expr.func(*new_args) on a Piecewise whose condition was converted: SymPy's Piecewise.eval recurses forever"""
-    return _kind(case) == 'exception' and case.get('detail', {}).get('err') == 'RecursionError' and \
-        any(s[0] == 13 for s in uc.subtrees(uc.tree_unjson(case['tree'])))
+    """expr.func(*new_args) re-evaluates the rebuilt Piecewise / Min / Max / relation with SymPy, which can recurse
+    forever (Piecewise.eval) or raise 'Invalid NaN comparison' / 'is not comparable' on degenerate operands"""
+    d = case.get('detail', {})
+    return _kind(case) == 'exception' and sympy_rebuild_error(d.get('err'), d.get('msg') or '') and \
+        any(s[0] in (13, 7, 9) for s in uc.subtrees(uc.tree_unjson(case['tree'])))
 
 
 KNOWN_PREDICATES = {'floor_ceiling_converted': floor_ceiling_converted,
